@@ -53,6 +53,13 @@ pub trait LatticeGen: Sized {
     fn check(&self, _st: &Self::State) -> Option<(&'static str, String)> {
         None
     }
+    /// Types containing a `Point`: a message that is legal in every respect except that its point
+    /// value differs from the receiver's (C01: "point lattices only ever merge equal values", i.e.
+    /// such a merge must be refused). `None`: the type has no such clause.
+    const HAS_INEQUAL_POINT: bool = false;
+    fn inequal_point_msg(&self, _sim: &mut Sim, _st: &Self::State) -> Option<Self::Msg> {
+        None
+    }
     /// True when one merge of this run's type costs ~0.4 ms (FST tombstone set: every merge
     /// rebuilds the FST): such runs issue fewer updates and skip the optional in-run fold checks.
     fn heavy(&self) -> bool {
@@ -97,6 +104,7 @@ struct Knobs {
     fold_pct: u64,
     fanout_all: bool,
     bidir: bool,
+    poison_pct: u64,
 }
 
 struct World<'s, G: LatticeGen> {
@@ -402,6 +410,33 @@ impl<'s, G: LatticeGen> World<'s, G> {
                 }
             }
         }
+        // ---- C01, Point clause: a merge of inequal point values must be refused (it panics in
+        // the real code); tried on a clone at a seeded subset of deliveries, in the build profile
+        // of the check itself. The panic is the expected outcome and is caught here.
+        if G::HAS_INEQUAL_POINT && self.mode == Mode::C01 && self.sim.flip("inequal_point", self.k.poison_pct, 100) {
+            if let Some(bad) = self.g.inequal_point_msg(self.sim, &self.reps[to].st) {
+                let mut victim = self.reps[to].st.clone();
+                let shown_before = G::show(&victim);
+                let r = std::panic::catch_unwind(std::panic::AssertUnwindSafe(|| {
+                    let flag = G::merge(&mut victim, bad.clone());
+                    (flag, G::show(&victim))
+                }));
+                match r {
+                    Err(_) => {
+                        self.sim.probe("point_inequal_merge_refused");
+                        self.log(0x5800 + to as u64, |w| format!("t={} R{to} was offered {} with an inequal point value: merge refused (panicked), as required", w.now, G::show_msg(&bad)));
+                    }
+                    Ok((flag, after)) => {
+                        let d = format!(
+                            "R{to} holding {shown_before} merged {} whose point value differs: merge returned {flag} instead of refusing (panicking); value afterwards {after}",
+                            G::show_msg(&bad)
+                        );
+                        self.fail("c01_point_inequal_merge_accepted", d);
+                        return;
+                    }
+                }
+            }
+        }
         G::observe(self.sim, &self.reps[to].st, &msg);
         let flag = self.do_merge(to, &msg, "delivery");
         self.reps[to].known |= mknown;
@@ -563,9 +598,10 @@ pub fn run<G: LatticeGen>(sim: &mut Sim, mode: Mode) -> Outcome {
     let bidir = sim.flip("bidir", 1, 2);
     let crash_on = sim.flip("crash_on", 1, 2);
     let part_on = sim.flip("partition_on", 1, 2);
+    let poison_pct = if G::HAS_INEQUAL_POINT { *sim.pick("inequal_point_pct", &[0u64, 10, 30]) } else { 0 };
     let k = Knobs {
         n, horizon, drop_pct, dup_pct, jitter, slow, slow_extra, gossip_period, persist_period,
-        sync_persist_pct, fork_pct, idem_pct, fold_pct, fanout_all, bidir,
+        sync_persist_pct, fork_pct, idem_pct, fold_pct, fanout_all, bidir, poison_pct,
     };
     let mut reps = Vec::with_capacity(n);
     // start values: update ids 0..n, update i is known to (and durable at) replica i from t=0
